@@ -288,7 +288,9 @@ def _borrowed(an: Analysis) -> None:
     from ..engine import borrow
     from . import c09
 
-    borrow(an, c09.check, {"C09.8": "C02.8"})
+    # C09.6: the completion bookkeeping run by MetricsContext.__exit__ cannot raise (a failing assertion there would replace the
+    # body's exception / make a normal exit raise)
+    borrow(an, c09.check, {"C09.8": "C02.8", "C09.6": "C02.9"})
 
 
 def enter_rollback(an: Analysis, ob, must_call: str, what: str) -> None:
